@@ -634,6 +634,13 @@ func genC1BaseKind(t *Tape, allowExc bool, kind int) (sc *C1, ok bool) {
 	if sc.Kind.Framing() == TCP {
 		sc.Reply = FrameTCP(sc.TID, sc.Unit, pdu)
 	} else {
+		if !sc.IsExc && (fc == 3 || fc == 4) && len(pdu) >= 6 && t.Chance(1, 12) {
+			// register values are the device's business: here one register happens to hold what would be the CRC of
+			// everything before it, so a proper prefix of this reply looks like a finished frame
+			m := t.Choose((len(pdu) - 2) / 2)
+			c := RefCRC16(append([]byte{sc.Unit}, pdu[:2+2*m]...))
+			pdu[2+2*m], pdu[3+2*m] = byte(c), byte(c>>8)
+		}
 		sc.Reply = FrameRTU(sc.Unit, pdu)
 	}
 	// knobs
